@@ -117,7 +117,7 @@ func (c *Ctx) establishSlotInvariants(report bool) {
 	T := structOfKey(c, "postscript", "Interpreter")
 	tname := types.TypeString(T, nil)
 	c.slotAlways(T, tname+".DictStack", 2)
-	c.slotExtent(T, tname+"."+c.fld("intp.scanners"))
+	c.slotExtent(T, c.fldKey("intp.scanners"))
 }
 
 func (c *Ctx) slotAlways(T *types.Named, key string, min int64) {
